@@ -218,7 +218,8 @@ func (w *linuxWriter) writeCombinedFile(id oid.ID, p string, data []byte) error 
 		return err
 	}
 	err = sb.write(id, p, data)
-	if err == nil && sb.cnt >= w.combinedCountLimit || sb.size >= w.combinedSizeLimit {
+	// a failed write has already finalized the batch
+	if err == nil && (sb.cnt >= w.combinedCountLimit || sb.size >= w.combinedSizeLimit) {
 		sb.intSync()
 	}
 	sb.lock.Unlock()
